@@ -455,7 +455,12 @@ pub fn check(id: &str, tier: Tier) -> i32 {
     let mut events = 0u64;
     for l in &batch.lines {
         for (k, v) in &l.stats {
-            *stats.entry(k.clone()).or_insert(0) += v;
+            let e = stats.entry(k.clone()).or_insert(0);
+            if k.ends_with("_peak") || k.ends_with("_max") {
+                *e = (*e).max(*v);
+            } else {
+                *e += v;
+            }
         }
         for (k, v) in &l.reach {
             *reach.entry(k.clone()).or_insert(0) += v;
@@ -520,9 +525,16 @@ pub fn check(id: &str, tier: Tier) -> i32 {
                         scenario: sc,
                     };
                     let path = write_replay(&rf);
-                    println!("VIOLATION property={id} replay={}", path.display());
-                    println!("  clause=process_death {}", v.detail);
-                    exit = 1;
+                    // replaying a process death must kill the fresh process as well
+                    let code = replay_in_fresh_process(&path);
+                    if code.is_none() || code.map(|c| c > 3).unwrap_or(false) {
+                        println!("VIOLATION property={id} replay={}", path.display());
+                        println!("  clause=process_death {}", v.detail);
+                        exit = 1;
+                        replay_paths.push(path.display().to_string());
+                    } else {
+                        harness_errors.push(format!("worker death at run {i}.{sub} did not replay (exit {code:?}): {}", v.detail));
+                    }
                 } else {
                     harness_errors.push(format!("violation {} at run {i}.{sub} vanished on re-execution: {}", v.clause, v.detail));
                 }
